@@ -81,6 +81,9 @@ static char userid_char2;		/* also accepted when receiving (uppercase) */
 static uint16_t chunkid;
 static uint16_t chunkid_prev;
 static uint16_t chunkid_prev2;
+/* Ids of the queries before chunkid_prev2, most recent first (0 = none) */
+#define CHUNKID_OLDER 13
+static uint16_t chunkid_older[CHUNKID_OLDER];
 
 /* The encoder used for data packets
  * Defaults to Base32, can be changed after handshake */
@@ -114,6 +117,7 @@ client_init(void)
 	chunkid = ((unsigned int) rand()) & 0xFFFF;
 	chunkid_prev = 0;
 	chunkid_prev2 = 0;
+	memset(chunkid_older, 0, sizeof(chunkid_older));
 
 	outpkt.len = 0;
 	outpkt.seqno = 0;
@@ -238,6 +242,9 @@ send_query(int fd, char *hostname)
 	struct query q;
 	size_t len;
 
+	memmove(&chunkid_older[1], &chunkid_older[0],
+		sizeof(chunkid_older) - sizeof(chunkid_older[0]));
+	chunkid_older[0] = chunkid_prev2;
 	chunkid_prev2 = chunkid_prev;
 	chunkid_prev = chunkid;
 	chunkid += 7727;
@@ -738,6 +745,23 @@ handshake_waitdns(int dns_fd, char *buf, int buflen, char c1, char c2, int timeo
 }
 
 static int
+is_older_chunkid(uint16_t id)
+/* Replies to the last few queries still carry downstream data that the
+   server will not send again (packets that fit one fragment are sent once);
+   with several queries in flight they arrive under an id older than the
+   last three. */
+{
+	int i;
+
+	if (id == 0)
+		return 0;
+	for (i = 0; i < CHUNKID_OLDER; i++)
+		if (chunkid_older[i] == id)
+			return 1;
+	return 0;
+}
+
+static int
 tunnel_tun(int tun_fd, int dns_fd)
 {
 	unsigned long outlen;
@@ -904,7 +928,8 @@ tunnel_dns(int tun_fd, int dns_fd)
 	   Actually, ever since iodined is replying to both the original query
 	   and the last dupe, this hardly triggers any more.
 	 */
-	if (q.id != chunkid && q.id != chunkid_prev && q.id != chunkid_prev2) {
+	if (q.id != chunkid && q.id != chunkid_prev && q.id != chunkid_prev2 &&
+	    !is_older_chunkid(q.id)) {
 		packrecv_oos++;
 #if 0
 		fprintf(stderr, "   q=%c Packs received = %8ld  Out-of-sequence = %8ld\n", q.name[0], packrecv, packrecv_oos);
